@@ -161,6 +161,110 @@ func kvBases() [][]Op {
 	}
 }
 
+// Family describes one harness suite: exhaustive depth 2 over an alphabet from bases, then random histories.
+type Family struct {
+	Name     string
+	Alphabet [][]string
+	Bases    [][]Op
+	AdvBases []int         // indices of bases that are also enumerated with the clock advanced
+	Command  func(g *Gen, now int64) []string
+}
+
+func familySeq(f Family, g *Gen, id string, n int) Seq {
+	s := Seq{ID: id}
+	now := StartMs
+	tcp := g.Chance(0.3)
+	conn := -1
+	if tcp {
+		conn = 0
+	}
+	for i := 0; i < n; i++ {
+		var adv int64
+		if g.Chance(0.2) {
+			adv = []int64{1, 499, 500, 999, 1000, 1001, 1500, 2000, 10000, 100000}[g.R.Intn(10)]
+		}
+		now += adv
+		var cmd []string
+		switch {
+		case g.Chance(0.2):
+			cmd = g.KvCommand(now)
+		case g.Chance(0.04):
+			cmd = g.OtherTypeCommand()
+		case tcp && g.Chance(0.04):
+			cmd = []string{"select", g.Pick([]string{"0", "1", "1", "2", "10"})}
+		default:
+			cmd = f.Command(g, now)
+		}
+		s.Ops = append(s.Ops, Op{Conn: conn, Cmd: HexCmd(cmd), Adv: adv})
+	}
+	return s
+}
+
+// RunFamily writes the transcript of one family suite.
+func RunFamily(f Family, w *bufio.Writer, seed int64, tier string, replay string) error {
+	r := &Runner{W: w}
+	if sp := os.Getenv("VH_SEQS"); sp != "" {
+		fl, err := os.Create(sp)
+		if err != nil {
+			return err
+		}
+		defer fl.Close()
+		r.SeqW = bufio.NewWriter(fl)
+		defer r.SeqW.Flush()
+	}
+	if replay != "" {
+		data, err := os.ReadFile(replay)
+		if err != nil {
+			return err
+		}
+		var rp struct {
+			Seq Seq `json:"seq"`
+		}
+		if err := json.Unmarshal(data, &rp); err != nil {
+			return err
+		}
+		return r.RunSeq(rp.Seq)
+	}
+	id := 0
+	for bi, base := range f.Bases {
+		advs := []int64{0}
+		for _, ab := range f.AdvBases {
+			if ab == bi {
+				advs = []int64{0, 1001}
+			}
+		}
+		for _, adv := range advs {
+			for _, c1 := range f.Alphabet {
+				for _, c2 := range f.Alphabet {
+					ops := append([]Op{}, base...)
+					ops = append(ops, Op{Conn: -1, Cmd: HexCmd(c1), Adv: adv}, Op{Conn: -1, Cmd: HexCmd(c2)})
+					if err := r.RunSeq(Seq{ID: fmt.Sprintf("x%d", id), Ops: ops}); err != nil {
+						return err
+					}
+					id++
+				}
+			}
+		}
+	}
+	nRandom, length := 300, 40
+	if tier == "thorough" {
+		nRandom, length = 5000, 80
+	}
+	g := NewGen(seed)
+	for i := 0; i < nRandom; i++ {
+		if err := r.RunSeq(familySeq(f, g, fmt.Sprintf("r%d", i), length)); err != nil {
+			return err
+		}
+	}
+	return nil
+}
+
+// ListFamily is the list-command suite.
+func ListFamily() Family {
+	return Family{Name: "list", Alphabet: listAlphabet(), Bases: listBases(), AdvBases: []int{2},
+		Command: func(g *Gen, now int64) []string { return g.ListCommand() }}
+}
+
 // RunKv writes the transcript of the generic/string suite.
 func RunKv(w *bufio.Writer, seed int64, tier string, replay string) error {
 	r := &Runner{W: w}
